@@ -72,8 +72,23 @@ X0s    == { St(PInt(<<0,0,0>>, 1), PInt(<<0,0,0>>, 1), <<1,0,0,0>>),
             St(PInt(<<3,0,0>>, 1), PInt(<<0,0,0>>, 1), <<2,1,2,-2>>) }
 MaxDepth == IF Thorough THEN 3 ELSE 2
 
+(* LONG sequences ("for all sequences of steps with piecewise-constant inputs", "keeps unit norm"): a schedule is a list of
+   segments [rate w/wd rad/s, specific force a, gravity g, n steps] run with one step size dt, the output of every step fed
+   back as the next initial state.  By Semigroup (checked above on the lattice) n steps of dt with constant inputs are ONE
+   step of n dt, so the expectation after each segment is the exact flow over the segment's duration -- which the harness
+   evaluates as the matrix exponential of the augmented system (the property's own definition); composing hundreds of
+   rational steps does not fit 32 bits.  What a per-step check cannot see shows here: an error of 1e-16 per step that
+   GROWS with the number of steps (norm drift fed back, accumulated rounding of a re-normalisation). *)
+LongSegs == << [w |-> <<1,-2,2>>, wd |-> 10, a |-> <<1,-2,3>>, g |-> 10, n |-> 200],
+               [w |-> <<0,0,0>>,  wd |-> 1,  a |-> <<0,3,-1>>, g |-> 10, n |-> 100],
+               [w |-> <<-3,1,2>>, wd |-> 2,  a |-> <<0,0,10>>, g |-> 0,  n |-> 300],
+               [w |-> <<0,0,40>>, wd |-> 1,  a |-> <<1,0,0>>,  g |-> 10, n |-> 200] >>
+LongDts  == IF Thorough THEN { <<1,200>>, <<1,100>>, <<1,1000>>, <<1,20>> } ELSE { <<1,200>>, <<1,20>> }
+ASSUME \A i \in DOMAIN LongSegs : LongSegs[i].n > 50 /\ LongSegs[i].wd > 0
+
 InitT == /\ dummy = 0
-         /\ \E h \in HTickS, s \in X0s : (h \in HTick \/ s.q \in {<<1,0,0,0>>, <<1,1,0,0>>}) /\
+         /\ \/ \E dt \in LongDts, s \in X0s : tv = [op |-> "long", dt |-> dt, segs |-> LongSegs, pre |-> s, depth |-> 0, cell |-> "long"]
+            \/ \E h \in HTickS, s \in X0s : (h \in HTick \/ s.q \in {<<1,0,0,0>>, <<1,1,0,0>>}) /\
                tv = [op |-> "start", h |-> h, post |-> s, depth |-> 0]
 NextT == UNCHANGED dummy /\ tv.op \in {"start", "tick"} /\ tv.depth < MaxDepth /\
     (tv.h \in HTick \/ tv.depth = 0) /\
